@@ -1,0 +1,60 @@
+//go:build verif
+
+package fbb
+
+// Verification hooks (build tag "verif"): exports of unexported functions so that an external
+// harness can call them in-process. Add-only; nothing here is compiled without the tag.
+
+func VerifSecureLoginResponse(challenge, password string) string {
+	return secureLoginResponse(challenge, password)
+}
+
+func VerifSalt() []byte { return append([]byte(nil), winlinkSecureSalt...) }
+
+func VerifCleanString(s string) string { return cleanString(s) }
+
+func VerifErrLine(s string) error { return errLine(s) }
+
+// VerifParseProposalAnswer runs parseProposalAnswer on n fresh proposals and reports
+// the resulting answers and offsets.
+func VerifParseProposalAnswer(line string, n int) (answers []byte, offsets []int, err error) {
+	props := make([]*Proposal, n)
+	for i := range props {
+		props[i] = &Proposal{}
+	}
+	err = parseProposalAnswer(line, props, nil)
+	for _, p := range props {
+		answers = append(answers, byte(p.answer))
+		offsets = append(offsets, p.offset)
+	}
+	return
+}
+
+type VerifProposalFields struct {
+	Code           byte
+	MsgType, Mid   string
+	Size           int
+	CompressedSize int
+}
+
+func VerifParseProposal(line string) (VerifProposalFields, error) {
+	p := new(Proposal)
+	err := parseProposal(line, p)
+	return VerifProposalFields{byte(p.code), p.msgType, p.mid, p.size, p.compressedSize}, err
+}
+
+func VerifParseFW(line string) ([]Address, error) { return parseFW(line) }
+
+func VerifParsePM(line string) (PendingMessage, error) { return parsePM(line) }
+
+func VerifIsSID(s string) bool { return isSID(s) }
+
+func VerifParseSID(s string) (string, error) { v, err := parseSID(s); return string(v), err }
+
+func VerifSortProposals(props []*Proposal) { sortProposals(props) }
+
+func (p *Proposal) VerifCompressedData() []byte { return p.compressedData }
+
+func (p *Proposal) VerifPrecedence() int { return p.precedence() }
+
+func (p *Proposal) VerifCode() byte { return byte(p.code) }
